@@ -1,0 +1,116 @@
+//go:build verif
+
+// Contracts for the kvc verifier (see /verif/DESIGN.md). This file is comment-only:
+// with the "verif" build tag off it is invisible, with it on it adds no code.
+
+package knxnet
+
+//@ func (us *UnknownService) Unpack(data []byte) (n uint, err error)
+//@   props C01
+//@   assigns *us
+
+//@ func UnpackHeader(data []byte, serviceID *ServiceID, totalLen *uint16) (n uint, err error)
+//@   props C01
+//@   decoder
+//@   requires serviceID != nil && totalLen != nil
+//@   ensures [consumed] err == nil ==> n <= uint(len(data))
+//@   assigns *serviceID, *totalLen
+
+//@ func Unpack(data []byte, srv *Service) (n uint, err error)
+//@   props C01
+//@   decoder
+//@   requires srv != nil
+//@   ensures [consumed] err == nil ==> n <= uint(len(data))
+//@   assigns *srv
+
+//@ func (req *ConnReq) Unpack(data []byte) (n uint, err error)
+//@   props C01
+//@   assigns *req
+
+//@ func (res *ConnRes) Unpack(data []byte) (n uint, err error)
+//@   props C01
+//@   assigns *res
+
+//@ func (req *ConnStateReq) Unpack(data []byte) (n uint, err error)
+//@   props C01
+//@   assigns *req
+
+//@ func (res *ConnStateRes) Unpack(data []byte) (n uint, err error)
+//@   props C01
+//@   assigns *res
+
+//@ func (req *DiscReq) Unpack(data []byte) (n uint, err error)
+//@   props C01
+//@   assigns *req
+
+//@ func (res *DiscRes) Unpack(data []byte) (n uint, err error)
+//@   props C01
+//@   assigns *res
+
+//@ func (info *HostInfo) Unpack(data []byte) (n uint, err error)
+//@   props C01
+//@   assigns *info
+
+//@ func (req *TunnelReq) Unpack(data []byte) (n uint, err error)
+//@   props C01
+//@   assigns *req
+
+//@ func (res *TunnelRes) Unpack(data []byte) (n uint, err error)
+//@   props C01
+//@   assigns *res
+
+//@ func (ind *RoutingInd) Unpack(data []byte) (n uint, err error)
+//@   props C01
+//@   assigns *ind
+
+//@ func (rl *RoutingLost) Unpack(data []byte) (n uint, err error)
+//@   props C01
+//@   assigns *rl
+
+//@ func (rl *RoutingBusy) Unpack(data []byte) (n uint, err error)
+//@   props C01
+//@   assigns *rl
+
+//@ func (info *DeviceInformationBlock) Unpack(data []byte) (n uint, err error)
+//@   props C01
+//@   assigns *info
+
+//@ func (f *ServiceFamily) Unpack(data []byte) (n uint, err error)
+//@   props C01 C02
+//@   ensures [accept] err == nil <==> len(data) >= 2
+//@   ensures [value] err == nil ==> n == 2 && f.Type == ServiceFamilyType(data[0]) && f.Version == data[1]
+//@   assigns *f
+
+//@ func (sdib SupportedServicesDIB) Size() (size uint)
+//@   props C15
+//@   ensures [size] size == 2 + 2*uint(len(sdib.Families))
+//@   assigns nothing
+//@   loop 0 invariant size == 2 + 2*uint(rangeindex+1) && -1 <= rangeindex && rangeindex < len(sdib.Families)
+//@   loop 0 decreases len(sdib.Families) - rangeindex
+//@   loop 0 assigns nothing
+
+//@ func (sdib *SupportedServicesDIB) Unpack(data []byte) (n uint, err error)
+//@   props C01
+//@   assigns *sdib, sdib.Families[0:cap(sdib.Families)]
+//@   loop 0 invariant n <= uint(len(data))
+//@   loop 0 decreases int(length) - int(n)
+//@   loop 0 assigns sdib.Families, sdib.Families[0:cap(sdib.Families)]
+
+//@ func (u *UnknownDescriptionBlock) Unpack(data []byte) (n uint, err error)
+//@   props C01
+//@   assigns *u
+
+//@ func (di *DescriptionBlock) Unpack(data []byte) (n uint, err error)
+//@   props C01
+//@   assigns *di, di.UnknownBlocks[0:cap(di.UnknownBlocks)], di.SupportedServices.Families[0:cap(di.SupportedServices.Families)]
+//@   loop 0 invariant n <= uint(len(data))
+//@   loop 0 decreases len(data) - int(n)
+//@   loop 0 assigns *di, di.UnknownBlocks[0:cap(di.UnknownBlocks)], di.SupportedServices.Families[0:cap(di.SupportedServices.Families)], length, ty
+
+//@ func (res *SearchRes) Unpack(data []byte) (n uint, err error)
+//@   props C01
+//@   assigns *res, res.DescriptionB.SupportedServices.Families[0:cap(res.DescriptionB.SupportedServices.Families)]
+
+//@ func (res *DescriptionRes) Unpack(data []byte) (n uint, err error)
+//@   props C01
+//@   assigns *res, res.UnknownBlocks[0:cap(res.UnknownBlocks)], res.SupportedServices.Families[0:cap(res.SupportedServices.Families)]
